@@ -47,9 +47,10 @@ def decl_of(c):
 HEADER = "# cython: language_level=3\ncimport cython\n\n"
 
 
-def gen_index_module():
+def gen_index_module(decls):
     src = [HEADER]
-    for d, ct in DECL_CTYPE.items():
+    for d in decls:
+        ct = DECL_CTYPE[d]
         for tag, ctype in [("obj", "")] + [(r[0], r[1] + " ") for r in RTYPES]:
             src.append("def get_%s_%s(%sx, %si):\n    return x[i]\n" % (d, tag, ct, ctype))
             if d in MUTABLE_DECLS:
@@ -66,9 +67,10 @@ def gen_index_module():
 _FORM_T = {"a": "", "c": "Py_ssize_t ", "o": "", "i": "int "}
 
 
-def gen_slice_module():
+def gen_slice_module(decls):
     src = [HEADER]
-    for d, ct in DECL_CTYPE.items():
+    for d in decls:
+        ct = DECL_CTYPE[d]
         for fs in "acoi":
             for fe in "acoi":
                 sl = "%s:%s" % ("" if fs == "a" else "a", "" if fe == "a" else "b")
@@ -135,10 +137,20 @@ class Ix(object):
         return self.v
 
 
+GROUP_A, GROUP_B = ["L", "T", "S"], ["B", "A", "O"]
+
+
 def modules():
-    return {"c15idx": gen_index_module(), "c15sl": gen_slice_module(),
-            "c15ka": gen_kslice_module(["L", "T", "S"]), "c15kb": gen_kslice_module(["B", "A", "O"]),
+    """seven small modules (two halves by declaration) so that the C compiles run in parallel"""
+    return {"c15ia": gen_index_module(GROUP_A), "c15ib": gen_index_module(GROUP_B),
+            "c15sa": gen_slice_module(GROUP_A), "c15sb": gen_slice_module(GROUP_B),
+            "c15ka": gen_kslice_module(GROUP_A), "c15kb": gen_kslice_module(GROUP_B),
             "c15xs": gen_xslice_module()}
+
+
+def module_of(family, d):
+    """family: 'i' index, 's' slice, 'k' constant slice, 'x' extended slice ; d: declaration letter"""
+    return "c15xs" if family == "x" else "c15%s%s" % (family, "a" if d in GROUP_A else "b")
 
 
 # --------------------------------------------------------------------------- scaled model -> real values
